@@ -1,2 +1,59 @@
-/- C12 uses the same driver operations as C11 (`addrewrite`, `covdir`, `rewrite`). -/
+/- C12 uses the driver operations of C11 (`addrewrite`, `covdir`, `rewrite`) plus its own:
+
+  c12.java.addrewrite O S P M I K E F W D X Y | entries   → report of `addThenRewriteJ`
+       (arguments as `c11.partial.rewrite`: `O` = walk order of the source tree)
+  c12.java.info …                                          → `needed=<b>` then per MAP key (after
+       add_results, in map order) `K<key>:<branch>:p<path handed to get_abs_path>`
+  c12.addkeys S P M I K E F W D X Y | entries              → the result map after `add_results` with
+       the UTF-8 aware key step (`addResultsU`), keys sorted: `ok K<key>=<cov> …`
+  c12.htmltotals S P … | entries                           → `<dirTotalH> <listedTotalH>` of the
+       whole report (what the HTML writer sums / what its rows list)
+-/
 import GrcovModel.Drv.C11
+import GrcovModel.Drv.C11Partial
+import GrcovModel.Rewrite.AddJ
+namespace Grcov.Drv.C12
+open Grcov Grcov.Drv Grcov.UPath Grcov.Glob Grcov.Rewrite Grcov.Drv.C11 Grcov.Drv.C11Partial
+
+def handleJavaAddRewrite (args : List String) : String :=
+  match parseJ args with
+  | some (ord, cfg, fs, es) => showRes (addThenRewriteJ cfg fs ord es)
+  | none => "bad-op"
+
+def handleJavaInfo (args : List String) : String :=
+  match parseJ args with
+  | some (ord, cfg, fs, es) =>
+    let m := addResults (addCanon fs cfg.sourceDir) [] es
+    let keys := m.map (·.1)
+    let nd := needed cfg fs keys
+    let ftp := fileToPaths fs ord cfg keys
+    let per := m.map fun kc =>
+      let rel := keyPath cfg kc.1
+      s!"K{toHex kc.1}:{showBranch (branchOf nd ftp rel)}:p{toHex (partialStep nd ftp rel)}"
+    joinWith " " (s!"needed={bit nd}" :: per)
+  | none => "bad-op"
+
+def handleAddKeys (args : List String) : String :=
+  match parseCfg args with
+  | some (cfg, fs, es) =>
+    let m := addResultsU fs cfg.sourceDir es
+    let lines := m.map fun kc => s!"K{toHex kc.1}={showCov kc.2}"
+    joinWith " " ("ok" :: lines.mergeSort fun a b => !(decide (b < a)))
+  | none => "bad-op"
+
+def handleHtmlTotals (args : List String) : String :=
+  match parseCfg args with
+  | some (cfg, fs, es) => match addThenRewrite cfg fs es with
+    | .panic _ => "panic"
+    | .ok rs => s!"{dirTotalH (fun _ => true) rs} {listedTotalH (fun _ => true) rs}"
+  | none => "bad-op"
+
+def dispatch (line : String) : String :=
+  match line.trimAscii.toString.splitOn " " with
+  | "c12.java.addrewrite" :: args => handleJavaAddRewrite args
+  | "c12.java.info" :: args => handleJavaInfo args
+  | "c12.addkeys" :: args => handleAddKeys args
+  | "c12.htmltotals" :: args => handleHtmlTotals args
+  | _ => step line
+
+end Grcov.Drv.C12
